@@ -14,14 +14,19 @@ Anything else -> bad-op.
 import HvTick.Model.Wake
 import HvTick.Model.Tick
 import HvTick.Model.Ticks
+import HvTick.Model.Loop
 open HvTick
 
 structure DSt where
   wake : Wake.St
   /-- C24: the program instance of the case (none for arithmetic cases) -/
   tick : Option Tick.RSt := none
+  /-- C26: loop program instance, and the two source queues -/
+  loop : Option Loop.RSt := none
+  q1 : List Int := []
+  q2 : List Int := []
 
-def DSt.fresh : DSt := ⟨Wake.init, none⟩
+def DSt.fresh : DSt := ⟨Wake.init, none, none, [], []⟩
 
 /-! ### C24 -/
 
@@ -94,6 +99,66 @@ def arith (ws : List String) : Option String :=
   | ["dneg", a] => do let a ← parseI64 a; pure (showOptI (Ticks.durNeg a))
   | _ => none
 
+/-! ### C26 -/
+
+/-- tokens -> nodes; returns (nodes, remaining tokens, next handoff position, next loop id) -/
+partial def parseLoopNodes (toks : List String) (pos lid : Nat) (inLoop : Bool) :
+    Option (List Loop.Node × List String × Nat × Nat) :=
+  match toks with
+  | [] => if inLoop then none else some ([], [], pos, lid)
+  | "]" :: rest => if inLoop then some ([], rest, pos, lid) else none
+  | t :: rest =>
+    let cont (n : Loop.Node) (rest : List String) (pos lid : Nat) :=
+      (parseLoopNodes rest pos lid inLoop).map fun r => (n :: r.1, r.2.1, r.2.2.1, r.2.2.2)
+    match t.toList with
+    | ['D'] => cont (.defer pos false) rest (pos + 1) lid
+    | ['L'] => cont (.defer pos true) rest (pos + 1) lid
+    | 'M' :: r => match (String.ofList r).toInt? with | some k => cont (.map k) rest pos lid | none => none
+    | 'T' :: r => match (String.ofList r).toNat? with | some k => cont (.tap k) rest pos lid | none => none
+    | 'C' :: r => match (String.ofList r).toInt? with | some k => cont (.cycle pos false k) rest (pos + 1) lid | none => none
+    | 'K' :: r => match (String.ofList r).toInt? with | some k => cont (.cycle pos true k) rest (pos + 1) lid | none => none
+    | ['[', c] =>
+      if c != 'b' && c != 'z' then none else
+      let (ex, rest') : Option Bool × List String := match rest with
+        | "X" :: r => (some false, r)
+        | "Z" :: r => (some true, r)
+        | r => (none, r)
+      match parseLoopNodes rest' pos (lid + 1) true with
+      | some (body, after, pos', lid') => cont (.loop lid (c == 'z') ex body) after pos' lid'
+      | none => none
+    | _ => none
+
+def parseLoopProg (tags : List String) : Option (List Loop.Node) :=
+  match tags.filterMap (fun w => if w.startsWith "prog=" then some (w.drop 5).toString else none) with
+  | d :: _ =>
+    if d.contains '[' then (parseLoopNodes (d.splitOn ",") 0 0 false).map (·.1) else none
+  | [] => none
+
+def loopFuel : Nat := 100000
+
+def loopAvail : Nat → Loop.RSt → List Int → List Int → Option (Loop.RSt × List Loop.Outs)
+  | 0, _, _, _ => none
+  | n + 1, s, a, b =>
+    match Loop.tickClosure loopFuel s a b with
+    | some (s', o, sched) =>
+      if sched then (loopAvail n s' [] []).map fun r => (r.1, o :: r.2) else some (s', [o])
+    | none => none
+
+def c26Op (st : DSt) (ws : List String) : Option (DSt × String) :=
+  match ws, st.loop with
+  | ["send", v], some _ => (parseVals v).map fun vs => ({ st with q1 := st.q1 ++ vs }, "ok")
+  | ["send2", v], some _ => (parseVals v).map fun vs => ({ st with q2 := st.q2 ++ vs }, "ok")
+  | ["tick"], some s =>
+    match Loop.tickClosure loopFuel s st.q1 st.q2 with
+    | some (s', o, _) => some ({ st with loop := some s', q1 := [], q2 := [] }, s!"t={s'.tick} out={showTaps o}")
+    | none => some (st, "model-budget-exhausted")
+  | ["avail"], some s =>
+    match loopAvail 10000 s st.q1 st.q2 with
+    | some (s', os) => some ({ st with loop := some s', q1 := [], q2 := [] },
+        s!"n={os.length} t={s'.tick} out={"/".intercalate (os.map showTaps)}")
+    | none => some (st, "model-budget-exhausted")
+  | _, _ => none
+
 def c24Op (st : DSt) (ws : List String) : Option (DSt × String) :=
   match ws, st.tick with
   | ["send", v], some s => (parseVals v).map fun vs => ({ st with tick := some (Tick.send s vs) }, "ok")
@@ -126,7 +191,10 @@ def applyActs (s : Wake.St) : List Char → Option Wake.St
 def step (st : DSt) (line : String) : DSt × String :=
   let l := line.trimAscii.toString
   match l.splitOn " " with
-  | "#case" :: tags => ({ DSt.fresh with tick := (parseProg tags).map Tick.RSt.init }, l)
+  | "#case" :: tags =>
+    match parseLoopProg tags with
+    | some p => ({ DSt.fresh with loop := some ⟨p, [], 0⟩ }, l)
+    | none => ({ DSt.fresh with tick := (parseProg tags).map Tick.RSt.init }, l)
   | ["v", acts] =>
     let s := st.wake
     let shown := s!"{s.pc.name} t={s.ticks} f={b01 s.flag} n={b01 s.notified}"
@@ -137,7 +205,12 @@ def step (st : DSt) (line : String) : DSt × String :=
   | ["end"] =>
     let s := st.wake
     (st, s!"end pc={s.pc.name} t={s.ticks} ct={s.ticks}")
-  | ws => match c24Op st ws with
+  | ws =>
+    if st.loop.isSome then
+      match c26Op st ws with
+      | some r => r
+      | none => (st, "bad-op")
+    else match c24Op st ws with
     | some r => r
     | none => (st, "bad-op")
 
